@@ -223,3 +223,11 @@ PROPS["C05"] = {
     "parts": [dpart([_G_FAIL, _G_FAIL_NATIVE], [_G_FAIL, _G_FAIL_NATIVE, _G_SINGLE2])],
 }
 PROPS["C05"]["parts"][0]["quick"]["sample"] = 900
+
+PROPS["C19"] = {
+    "rule": _DISPATCH_RULE + " For C19 the in-flight gauge is sampled by the backend while it holds each attempt and "
+            "all gauges/counters are read at quiescence.",
+    "exhaustive": False,
+    "assumptions": ["quiescence = all clients returned and the collector's numbers unchanged for 150 ms"],
+    "parts": [dpart([_G_SINGLE2, _G_BURST, _G_BREAKER], [_G_SINGLE3, _G_BURST, _G_BREAKER, _G_TWOSTEP, _G_FAIL], 8000)],
+}
